@@ -189,13 +189,20 @@ def variant(rng, spec, t, opnames):
     return rebuild(t, path)
 
 
-def ref_match(a, b):
-    """same shape, same operators, equal source types (reference semantics of Expr.match, strict)"""
+def ref_match(a, b, polyconst=()):
+    """same shape, same operators, equal source types (reference semantics of Expr.match, strict). A data constant whose declared type
+    has variables (`m : F(x, A)`) is a SOURCE of a freshly instantiated type at every use: two uses have types that differ in their
+    variables, which strict matching leaves undecided - no reference verdict (None) for trees that contain one (thorough seeds 73, 79)"""
     if a[0] != b[0]:
         return False
     if a[0] == "app":
-        return ref_match(a[1], b[1]) and ref_match(a[2], b[2])
+        l, r = ref_match(a[1], b[1], polyconst), ref_match(a[2], b[2], polyconst)
+        if l is False or r is False:
+            return False
+        return None if l is None or r is None else True
     if a[0] == "op":
+        if a[1] == b[1] and a[1] in polyconst:
+            return None
         return a[1] == b[1]
     if a[0] == "ann":
         return a[3] == b[3]
@@ -208,11 +215,13 @@ def match_cases(ctx, li, spec, ops, opdecls, lang, trees, ninputs):
     from transforge import expr as E
     rng = ctx.rng
     opnames = [n for n, s in opdecls if not I.is_var(s["body"]) and s["body"][0] == G.FUN]
+    polyconst = {n for n, s in opdecls if n not in opnames and s["nvars"] + s["nwild"] > 0}
     for tree in trees[:40]:
         a = annotate_sources(rng, spec, tree)
         b = variant(rng, spec, a, opnames) if rng.random() < 0.7 else a
-        want = ref_match(a, b)
+        want = ref_match(a, b, polyconst)
         if want is None:
+            ctx.count("match_no_reference_verdict")
             continue
         try:
             ea = lang.parse(X.tree_text(a), *[E.Source() for _ in range(ninputs)])
